@@ -33,12 +33,16 @@ pub fn kind_hash(kind: &str) -> u64 {
 }
 
 pub fn run_spec(prop: Prop, spec: &RunSpec, want_transcript: bool) -> RunOutcome {
+    // C05 quantifies over every safe call sequence: destructors of stored objects are user
+    // code too, so there they are crash points of the general fuse
+    ctx::with(|c| c.drop_in_seq = prop == Prop::C05);
     if prop == Prop::C07 {
         let seed = splitmix64(spec.ops.len() as u64 ^ spec.cfg.universe as u64);
         return match spec.cfg.elem {
             ElemClass::Plain => crate::c07::run_c07::<u32, PVal>(spec, seed),
             ElemClass::Tracked => crate::c07::run_c07::<TKey, TVal>(spec, seed),
             ElemClass::Zst => crate::c07::run_c07::<(), ()>(spec, seed),
+            ElemClass::ZstDrop => crate::c07::run_c07::<crate::elems::ZKey, crate::elems::ZVal>(spec, seed),
         };
     }
     if prop == Prop::C10 {
@@ -46,6 +50,7 @@ pub fn run_spec(prop: Prop, spec: &RunSpec, want_transcript: bool) -> RunOutcome
             ElemClass::Plain => crate::c10::run_c10::<u32, PVal>(spec, crate::THOROUGH.load(std::sync::atomic::Ordering::Relaxed)),
             ElemClass::Tracked => crate::c10::run_c10::<TKey, TVal>(spec, crate::THOROUGH.load(std::sync::atomic::Ordering::Relaxed)),
             ElemClass::Zst => crate::c10::run_c10::<(), ()>(spec, crate::THOROUGH.load(std::sync::atomic::Ordering::Relaxed)),
+            ElemClass::ZstDrop => crate::c10::run_c10::<crate::elems::ZKey, crate::elems::ZVal>(spec, crate::THOROUGH.load(std::sync::atomic::Ordering::Relaxed)),
         };
     }
     if matches!(spec.mode.as_deref(), Some("enum-chains") | Some("enum-prefixes")) {
@@ -54,12 +59,14 @@ pub fn run_spec(prop: Prop, spec: &RunSpec, want_transcript: bool) -> RunOutcome
             ElemClass::Plain => crate::variants::run_variants::<u32, PVal>(prop, spec, th),
             ElemClass::Tracked => crate::variants::run_variants::<TKey, TVal>(prop, spec, th),
             ElemClass::Zst => crate::variants::run_variants::<(), ()>(prop, spec, th),
+            ElemClass::ZstDrop => crate::variants::run_variants::<crate::elems::ZKey, crate::elems::ZVal>(prop, spec, th),
         };
     }
     match spec.cfg.elem {
         ElemClass::Plain => run_generic::<u32, PVal>(prop, spec, want_transcript),
         ElemClass::Tracked => run_generic::<TKey, TVal>(prop, spec, want_transcript),
         ElemClass::Zst => run_generic::<(), ()>(prop, spec, want_transcript),
+        ElemClass::ZstDrop => run_generic::<crate::elems::ZKey, crate::elems::ZVal>(prop, spec, want_transcript),
     }
 }
 
@@ -99,8 +106,17 @@ fn run_generic<K: KeyT, V: ValT>(prop: Prop, spec: &RunSpec, want_transcript: bo
     let mut stopped = false;
     let hmode = spec.cfg.map_hashers.first().or(spec.cfg.set_hashers.first()).map_or(0, |h| h.mode as u8);
     for (i, op) in spec.ops.iter().enumerate() {
-        let fuse = spec.faults.iter().find(|f| f.at == i).map(|f| f.nth);
+        let fault = spec.faults.iter().find(|f| f.at == i);
+        let mut fuse = fault.map(|f| f.nth);
+        if let Some(f) = fault {
+            if f.site == Some(ctx::Site::Drop) {
+                // the nth destructor run inside this operation panics
+                fuse = None;
+                ctx::with(|c| c.drop_fuse = Some(f.nth));
+            }
+        }
         let so = w.exec(i, op, fuse, false);
+        ctx::with(|c| c.drop_fuse = None);
         out.steps += 1;
         out.op_kinds.push(op.kind());
         for p in &so.probes {
@@ -159,6 +175,23 @@ fn run_generic<K: KeyT, V: ValT>(prop: Prop, spec: &RunSpec, want_transcript: bo
                         t.push(format!("adopt failed: {}", e));
                     }
                     stopped = true;
+                }
+                if prop == Prop::C05 && !stopped {
+                    // the cached position must agree with the old table after *every* call,
+                    // also one that unwound
+                    let states = w.maps.iter().map(|s| s.m.verif_state()).chain(w.sets.iter().map(|s| s.s.verif_state()));
+                    for st in states {
+                        if st.split && (st.cursor_remaining != st.old_len || !st.cursor_exact) {
+                            anomalies.push(Anomaly {
+                                class: "I1-cursor",
+                                family: fam,
+                                op_index: i,
+                                op_kind: op.kind(),
+                                detail: format!("after the caught panic ({}): cached iterator remaining={} old_len={} exact={}", site.name(), st.cursor_remaining, st.old_len, st.cursor_exact),
+                            });
+                            stopped = true;
+                        }
+                    }
                 }
             } else {
                 // an injected panic outside the fault-enumeration driver: the model is stale
